@@ -86,7 +86,10 @@ impl<'a> Lexer<'a> {
         let start_pos = self.pos;
         let first = self.bump().unwrap_or(EOF);
         let kind = match first {
-            EOF => Kind::Eof,
+            // only the end of the input: a NUL byte in the text is lexed like any
+            // other unexpected byte (and reported by the parser), it does not
+            // silently end the parse.
+            EOF if self.pos == start_pos => Kind::Eof,
             _ if self.in_path.in_path() => self.path(),
             byte if is_ascii_whitespace(byte) => self.whitespace(),
             b'#' => self.comment(),
@@ -335,6 +338,17 @@ mod tests {
         assert_eq!(token_strs[3], "7..8 WS");
         assert_eq!(token_strs[4], "8..10 HEX EMPTY");
         assert_eq!(token_strs[5], "10..12 ID");
+    }
+
+    #[test]
+    fn nul_byte_is_not_eof() {
+        let fea = "a;\0b;";
+        let tokens = tokenize(fea);
+        assert_eq!(tokens.iter().map(|t| t.len).sum::<usize>(), fea.len());
+        assert!(tokens.iter().all(|t| t.kind != Kind::Eof));
+        let (tree, errs) = crate::parse::parse_string(fea);
+        assert!(errs.has_errors());
+        assert_eq!(tree.root().text_len(), fea.len());
     }
 
     #[test]
